@@ -49,7 +49,7 @@ PROPS = {
     },
     "C14": {
         "engine": "mc",
-        "timeout_s": {"quick": 120, "thorough": 900},
+        "timeout_s": {"quick": 60, "thorough": 900},
         "batches": {
             "quick": [{"config": "clang-O2", "runs": 800}, {"config": "gcc-O1-asan-ubsan", "runs": 160}],
             "thorough": [{"config": "clang-O2", "runs": 6000}, {"config": "gcc-O1-asan-ubsan", "runs": 600}],
